@@ -1,4 +1,4 @@
-"""C20 -- completion proposals (clauses R20.1-R20.2)."""
+"""C20 -- completion proposals (clauses R20.1-R20.5)."""
 from __future__ import annotations
 
 import ast
@@ -14,7 +14,7 @@ EXPLANATION = (
     "call site -- necessary and sufficient for 'every proposal extends the typed text'.  R20.2: the scope walk uses "
     "get_names() only for the innermost scope and get_propagated_names() for enclosing scopes (so class attributes are "
     "not offered inside methods).  R20.3: the scope lookup is given the line number and the indentation of the same "
-    "line.  R20.4: in find_definition the offset-restricting filter precedes the accepting identity filter.  'Returns without internal error at every position' and completeness are not decided."
+    "line.  R20.4: in find_definition the offset-restricting filter precedes the accepting identity filter.  R20.5 (=R14.8): the word finder consults the hard-keyword oracle only (soft keywords are identifiers).  'Returns without internal error at every position' and completeness are not decided."
 )
 ASSUMPTIONS = ["proposal name is the first constructor argument"]
 
@@ -156,3 +156,8 @@ def check(ctx, res) -> None:
     from .c02 import filter_order_rule
 
     filter_order_rule(ctx, res, "R20.4", "rope.contrib.findit.find_definition")
+
+    # ---- R20.5 (=R14.8) the word finder knows hard keywords only
+    from .common import hard_keyword_rule
+
+    hard_keyword_rule(ctx, res, "R20.5")
